@@ -18,7 +18,7 @@ from engine.pyvc.values import *
 from engine.pyvc import models
 from engine.pyvc.models import register
 from engine.pyvc.loops import LoopSpec
-from engine.pyvc.harness import toolkit, raw, where, new_engine, run_paths, path_obligations, register_fn, note_engine, qualname
+from engine.pyvc.harness import toolkit, raw, where, new_engine, run_paths, path_obligations, register_fn, note_engine, qualname, exc_note, sect
 
 ID = "C09"
 ENGINE = "PyVC"
@@ -70,7 +70,7 @@ def _wait(E, ev, timeout=None):
     if E.branch(z3.Bool(E.fresh("stop_requested"))):
         return True
     now2 = E.fresh_int("now")
-    E.assume(now2 >= E.ghost["now"] + dt)
+    E.assume(z3.And(now2 >= E.ghost["now"] + dt, now2 < 2 ** 63))
     E.ghost["now"] = now2
     return False
 
@@ -104,7 +104,7 @@ def _talive(E, th):
 
 def monotonic_model(E):
     now2 = E.fresh_int("now")
-    E.assume(now2 >= E.ghost["now"])
+    E.assume(z3.And(now2 >= E.ghost["now"], now2 < 2 ** 63))     # a C long long of nanoseconds
     E.ghost["now"] = now2
     return SInt(now2)
 
@@ -136,13 +136,13 @@ def mk_gen(E, links=None):
 def build(run, prop=ID):
     install_time_models()
     E = new_engine()
-    build_tick_const(run, prop)
-    build_send(run, prop, E)
-    build_worker(run, prop, E)
-    build_start_stop(run, prop, E)
-    build_lemma(run, prop)
+    sect(run, build_tick_const, run, prop)
+    sect(run, build_send, run, prop, E)
+    sect(run, build_worker, run, prop, E)
+    sect(run, build_start_stop, run, prop, E)
+    sect(run, build_lemma, run, prop)
     note_engine(run, E)
-    run.assume("virtual clock: time.monotonic_ns() returns a non-decreasing `now`; Event.wait(dt*1e-9) returns True (stop) or returns False "
+    run.assume("virtual clock: time.monotonic_ns() returns a non-decreasing `now` below 2^63 (int64 nanoseconds); Event.wait(dt*1e-9) returns True (stop) or returns False "
                "no earlier than dt ns later; float rounding of dt*1e-9 ignored; handler/link durations arbitrary (clock may advance at any call)")
     run.assume("sched_rr_prio is None (the SCHED_RR branch only calls os.sched_setscheduler inside try/except OSError)")
     run.assume("real scheduler jitter and the threading module itself are outside the property (it quantifies over a virtual clock)")
@@ -214,7 +214,7 @@ def build_send(run, prop, E):
             if out[0] == "cut":
                 continue
             if out[0] == "raise":
-                run.add(Obligation(prop, qualname(f), "never_raises", p.pc, z3.BoolVal(False), kind="noexc", case=cs + "," + out[1].cls.__name__, where=where(f), tag=tag))
+                run.add(Obligation(prop, qualname(f), "never_raises", p.pc, z3.BoolVal(False), kind="noexc", note=exc_note(out[1]), case=cs + "," + out[1].cls.__name__, where=where(f), tag=tag))
                 continue
             n_exit += 1
             g = ctx["self"]
@@ -249,7 +249,7 @@ def build_worker(run, prop, E):
         E.ghost["fire_time"] = E.ghost["now"]
         E.ghost["ticks"] = E.ghost["ticks"] + 1
         now2 = E.fresh_int("now")
-        E.assume(now2 >= E.ghost["now"])
+        E.assume(z3.And(now2 >= E.ghost["now"], now2 < 2 ** 63))
         E.ghost["now"] = now2
         return None
     E.summaries = {"clck_gen.CLCKGen.send_clck_ind": tick_summary}
@@ -269,6 +269,7 @@ def build_worker(run, prop, E):
         tn = Z(fr.locals["t_next"])
         g = E.ghost
         return z3.And(g["ticks"] == i, g["k0"] >= 0, g["k0"] <= g["ticks"], tn == g["base"] + (g["ticks"] - g["k0"]) * T,
+                      tn <= g["now"], g["now"] < 2 ** 63, g["base"] >= 0,          # the deadline just served is not in the future: waits stay below one period
                       z3.BoolVal(fr.locals.get("t_tick") == T))
 
     def step(E, fr, i):
@@ -301,6 +302,7 @@ def build_worker(run, prop, E):
     def setup(E):
         g = mk_gen(E, [])
         now0 = z3.Int("now0")
+        E.assume(z3.And(now0 >= 0, now0 < 2 ** 63))
         E.ghost.update({"now": now0, "ticks": z3.IntVal(0), "base": z3.Int("base_init"), "k0": z3.IntVal(0), "gen": g})
         return {"self": g}
     n_stop = 0
@@ -314,7 +316,7 @@ def build_worker(run, prop, E):
         if out[0] == "cut":
             continue
         if out[0] == "raise":
-            run.add(Obligation(prop, qualname(f), "never_raises", p.pc, z3.BoolVal(False), kind="noexc", case=out[1].cls.__name__, where=where(f), tag=tag))
+            run.add(Obligation(prop, qualname(f), "never_raises", p.pc, z3.BoolVal(False), kind="noexc", note=exc_note(out[1]), case=out[1].cls.__name__, where=where(f), tag=tag))
             continue
         n_stop += 1
         # the loop is only left through the breaker
@@ -368,7 +370,7 @@ def build_start_stop(run, prop, E):
             tag = {"what": "stop"}
             g = ctx["self"]
             if out[0] == "raise":
-                run.add(Obligation(prop, qualname(fp), "never_raises", p.pc, z3.BoolVal(False), kind="noexc", case=cs + "," + out[1].cls.__name__, where=where(fp), tag=tag))
+                run.add(Obligation(prop, qualname(fp), "never_raises", p.pc, z3.BoolVal(False), kind="noexc", note=exc_note(out[1]), case=cs + "," + out[1].cls.__name__, where=where(fp), tag=tag))
                 continue
             ev = p.ghost.get("events", [])
             ok = g.attrs.get("_thread", "<deleted>") is None and g.attrs["_breaker"].attrs["flag"] is False and \
@@ -425,6 +427,42 @@ def replay(payload):
         ok = ok and (sorted(x[0] for x in sent) == list(range(n)) if due else sent == [])
         ok = ok and all(d == "IND CLOCK %u\0" % src for _n, d in sent)
         return {"confirmed": not ok, "observed": [calls, g.clck_src, sent[:2]], "expected": "one indication per link iff due; handler once; fn+1 mod H"}
+    if what in ("start", "stop"):
+        # the real start()/stop() with the thread object replaced by a recorder: any prior counter value, stop() then start()
+        started = []
+
+        class Th:
+            def __init__(s, target=None):
+                s.daemon = False
+
+            def start(s):
+                started.append(1)
+
+            def join(s):
+                pass
+        cgm = toolkit("clck_gen")
+        orig = cgm.threading.Thread
+        cgm.threading.Thread = Th
+        bad = []
+        try:
+            for cs in sorted({f.get("clck_start", 0) % H, 0, 7, H - 1}):
+                for prior in sorted({f.get("clck_src", 0) % H, 0, 12345, H - 1}):
+                    g = cg.CLCKGen([], clck_start=cs)
+                    g.start()
+                    if g.clck_src != cs:
+                        bad.append(("first start", cs, g.clck_src))
+                    g.clck_src = prior            # the worker advanced the counter
+                    g.stop()
+                    if g._thread is not None:
+                        bad.append(("stop leaves a thread", cs))
+                    g.start()
+                    if g.clck_src != cs:
+                        bad.append(("restart", {"clck_start": cs, "counter before stop": prior, "counter after restart": g.clck_src}))
+        except Exception as e:
+            bad.append(("raises", type(e).__name__, str(e)))
+        finally:
+            cgm.threading.Thread = orig
+        return {"confirmed": bool(bad), "observed": bad[:3] or "every (re)start begins at clck_start", "expected": "counter == clck_start after every start()"}
     if what == "worker":
         # scripted clock: handler durations alternate below/above one frame period
         T = int((cg.CLCKGen.GSM_FRAME_US / cg.CLCKGen.SEC_DELAY_US) // 1e-9)
